@@ -9,6 +9,7 @@ import GoBT.Sighash.Model
 import GoBT.Props.C01
 import GoBT.Gen.Limits
 import GoBT.Script.WriteReviewLib
+import GoBT.Script.SliceHeap
 namespace GoBT.C03
 open GoBT GoBT.Sighash
 
@@ -196,5 +197,16 @@ theorem sighash_consts_match :
     slice it was handed — a previous-output script, a caller's hash, a destination's old buffer — adds a row with a
     `param:` / `field:` / `deref:` origin and breaks this obligation. -/
 theorem lib_writes_only_fresh_buffers : GoBT.Script.WriteReviewLib.writesOkFor "C03" = true := by decide +kernel
+
+/-- "Computing the hash leaves the transaction unchanged", on Go's slice semantics (GoBT/Script/SliceHeap.lean): the
+    routine assembles the preimage by appending pieces to a buffer it made itself (that it does is the regenerated
+    obligation `lib_writes_only_fresh_buffers`).  For every heap and every way of cutting the preimage into appended
+    pieces, the assembled buffer reads as the specification's preimage, and every slice the caller held before — the
+    scripts and txids of the transaction, whatever spare capacity they have — reads exactly as before. -/
+theorem preimage_assembly_leaves_caller_memory_alone (tx : Tx) (idx ht : Nat) (sc : Bytes) (h : SliceHeap.Heap UInt8)
+    (pieces : List Bytes) (hp : pieces.flatten = satoshiSpec tx idx ht sc) :
+    (SliceHeap.freshAppends h pieces).1.read (SliceHeap.freshAppends h pieces).2 = satoshiSpec tx idx ht sc ∧
+    ∀ t : SliceHeap.Slice, t.WF h → (SliceHeap.freshAppends h pieces).1.read t = h.read t :=
+  ⟨by rw [SliceHeap.freshAppends_read, hp], fun t wt => SliceHeap.freshAppends_preserves_read h pieces t wt⟩
 
 end GoBT.C03
